@@ -16,6 +16,7 @@ package erpc
 
 import (
 	"context"
+	"fmt"
 	"reflect"
 	"sync"
 	"time"
@@ -630,6 +631,11 @@ func (c *handlerCtx) handleReply() {
 	defer func() {
 		if p := recover(); p != nil {
 			Errorf("panic:%v\n%s", p, goutil.PanicTrace(2))
+			// the reply was not processed to the end: the call must not
+			// complete with the OK status it was launched with
+			if c.callCmd.stat.OK() {
+				c.callCmd.stat = statBadMessage.Copy(fmt.Errorf("panic while handling the reply: %v", p))
+			}
 		}
 		c.callCmd.result = c.input.Body()
 		c.stat = c.callCmd.stat
